@@ -23,6 +23,14 @@ ids = sys.argv[2:] or sorted(props)
 os.makedirs('/tmp/sa_prompts', exist_ok=True)
 
 STYLE = {
+    'o': ('This time the change must involve SHARED MUTABLE STATE or the AFTERMATH OF A REFUSAL: a mutable default argument, '
+          'a class attribute used as an instance attribute, a module-level list / dict / counter / singleton that instances '
+          'or successive calls share, an object shared between a circuit and its copy or between an argument and the result, '
+          'state that is not reset between two uses of the same object; or a call that raises (legitimately - a documented '
+          'refusal) only AFTER it has already changed something, so that the object it was called on, or the next perfectly '
+          'normal call, misbehaves (a flag left set, an entry left in an index, a half-inserted gate, a counter advanced, a '
+          'file left open, a cache filled with a partial result). The first, ordinary use must stay correct. Do not add '
+          'comments that point at the flaw.'),
     'n': ('This time the change must involve ORDER, IDENTITY or TYPE of values rather than plain logic: iteration order of a '
           'set / dict / frozenset that leaks into the result (hash-seed dependent: right under some PYTHONHASHSEED values and '
           'wrong under others), a sort that is not stable or uses an incomplete key, ties broken differently, `sorted` on mixed '
